@@ -100,13 +100,43 @@ Fixpoint chars_of_hex (upper : bool) (d : Hexadecimal.uint) : chars :=
   | Hexadecimal.De d => u "e" "E" :: chars_of_hex upper d | Hexadecimal.Df d => u "f" "F" :: chars_of_hex upper d
   end.
 
+Definition hd_eqb (x : ascii) (l : chars) : bool :=
+  match l with c :: _ => Ascii.eqb c x | [] => false end.
+
 (* ------------------------------------------------------------------ AST *)
-Inductive disp := DNone | DInt (z : Z) | DId (s : string).
+(* DIdR: identifier@relocation[+-offset] AS WRITTEN; the code keeps the name only (see code_view) *)
+Inductive disp := DNone | DInt (z : Z) | DId (s : string) | DIdR (s rel : string) (off : option string).
+(* displacement of a segment-override reference, AS WRITTEN (parser_x86att.py keeps the text: '0x28', '-8', '010'):
+   SNum "0x28" | SId name (relocation without "@") (signed decimal offset text) *)
+Inductive sdisp := SNone | SNum (t : string) | SId (n : string) (rel : option string) (off : option string).
+Inductive starred := StReg (name : string) | StDisp (d : sdisp).
 Inductive operand :=
 | OReg (name : string)                                   (* %name, name as written *)
 | OImm (z : Z)                                           (* $dec, $hex : the integer *)
 | OId (name : string)                                    (* label / $label *)
-| OMem (d : disp) (base index : option string) (scale : Z).
+| OMem (d : disp) (base index : option string) (scale : Z)
+| OSeg (seg : string) (d : sdisp) (base index : option string) (scale : Z)    (* %seg:disp(base,index,scale) *)
+| OStar (x : starred)                                    (* *%reg  *number  *identifier[@reloc[+-off]]  (memory_abs) *)
+(* written forms whose extra information the code drops (code_view): *)
+| ORegK (name mask : string) (zero : bool)               (* %zmm3{%k1}{z} *)
+| OMemK (d : disp) (base index : option string) (scale : Z) (mask : string)   (* disp(base,index,scale){%k1} *)
+| OIdR (name rel : string) (off : option string)         (* foo@PLT  $foo@GOT+8 *)
+| ONumLbl (digits : string) (suffix : ascii).            (* 1b 2f : first operand only *)
+
+(* what parser_x86att.py keeps of a written operand: process_register drops mask/zeroing, process_identifier and
+   process_memory_address drop relocation and offset of an identifier and the b/f suffix of a numeric label,
+   process_memory_address drops the mask of a memory reference *)
+Definition disp_view (d : disp) : disp := match d with DIdR n _ _ => DId n | _ => d end.
+Definition code_view (o : operand) : operand :=
+  match o with
+  | ORegK n _ _ => OReg n
+  | OMemK d b i sc _ => OMem (disp_view d) b i sc
+  | OMem d b i sc => OMem (disp_view d) b i sc
+  | OIdR n _ _ => OId n
+  | ONumLbl d _ => OId d
+  | _ => o
+  end.
+
 Definition instr := (string * list operand)%type.
 
 Inductive pline :=
@@ -114,15 +144,26 @@ Inductive pline :=
 Inductive outcome := Unmodelled | Reject (* ValueError *) | Parsed (p : pline).
 
 (* ------------------------------------------------------------------ layout and renderer *)
+(* "*" in front of a parenthesised memory reference (the grammar skips it), blanks after "*";
+   opmask {[%]k}[{z}]: "%" written or not, blanks before "{", after "{", after "%", after the name, before the second "{",
+   after it, after "z" *)
+Record klay := mkKlay {
+  lo_star : bool; w_st : string;
+  lo_kpct : bool; wk1 : string; wk2 : string; wk3 : string; wk4 : string; wk5 : string; wk6 : string; wk7 : string }.
 Record oplay := mkOplay {
   lo_hex : bool; lo_upper : bool; lo_omit1 : bool; lo_dollar : bool;
-  w_d : string; w_lp : string; w_b : string; w_c1 : string; w_i : string; w_c2 : string; w_s : string }.
-Definition default_oplay := mkOplay false false false false "" "" "" "" "" "" "".
+  w_d : string; w_lp : string; w_b : string; w_c1 : string; w_i : string; w_c2 : string; w_s : string;
+  (* segment-override references: blanks before / after ":", before "@", before the sign of the offset, after "+" *)
+  w_sg1 : string; w_sg2 : string; w_at : string; w_pl1 : string; w_pl2 : string;
+  lo_k : klay }.
+Definition default_klay := mkKlay false "" false "" "" "" "" "" "" "".
+Definition default_oplay := mkOplay false false false false "" "" "" "" "" "" "" "" "" "" "" "" default_klay.
 Record layout := mkLayout {
   lead : string; gap : string;
   lops : list (oplay * string * string);         (* per operand: its layout, blanks after it, blanks after the comma before it *)
   trail : string;
-  comment : option (bool * string) }.             (* Some (true, t) = "//" ++ t ; Some (false, t) = "#" ++ t *)
+  comment : option (bool * string);               (* Some (true, t) = "//" ++ t ; Some (false, t) = "#" ++ t *)
+  prefixes : list (bool * string) }.              (* data16 (false) / data32 (true) prefixes, each with the blanks after it *)
 
 Definition render_N (lo : oplay) (n : N) : chars :=
   if lo_hex lo then "0" :: "x" :: chars_of_hex (lo_upper lo) (N.to_hex_uint n)
@@ -142,6 +183,36 @@ Definition render_paren (lo : oplay) (b i : option string) (sc : Z) : chars :=
       end)
   ++ [")"].
 
+(* "-8" as written; "8" is written "+8" (after a relocation the sign separates it from the relocation name) *)
+Definition render_off (lo : oplay) (t : string) : chars :=
+  L (w_pl1 lo) ++ (if hd_eqb "-" (L t) then L t else "+" :: L (w_pl2 lo) ++ L t).
+Definition render_sdisp (lo : oplay) (d : sdisp) : chars :=
+  match d with
+  | SNone => []
+  | SNum t => L t
+  | SId n rel off =>
+      L n ++ (match rel with
+              | Some a => L (w_at lo) ++ "@" :: L a ++ (match off with Some t => render_off lo t | None => [] end)
+              | None => []
+              end)
+  end.
+
+Definition render_mask (lo : oplay) (k : string) (z : bool) : chars :=
+  let kl := lo_k lo in
+  L (wk1 kl) ++ "{" :: L (wk2 kl) ++ (if lo_kpct kl then "%" :: L (wk3 kl) else []) ++ L k ++ L (wk4 kl)
+  ++ "}" :: (if z then L (wk5 kl) ++ "{" :: L (wk6 kl) ++ "z" :: L (wk7 kl) ++ ["}"] else []).
+Definition render_star (lo : oplay) : chars := "*" :: L (w_st (lo_k lo)).
+(* disp ( base , index , scale ) with at least one of base / index *)
+Definition render_mem (lo : oplay) (d : disp) (b i : option string) (sc : Z) : chars :=
+  (if lo_star (lo_k lo) then render_star lo else [])
+  ++ (match d with
+      | DNone => []
+      | DInt z => render_Z lo z ++ L (w_d lo)
+      | DId n => L n ++ L (w_d lo)
+      | DIdR n rel off => render_sdisp lo (SId n (Some rel) off) ++ L (w_d lo)
+      end)
+  ++ render_paren lo b i sc.
+
 Definition render_op (first : bool) (lo : oplay) (o : operand) : chars :=
   match o with
   | OReg r => "%" :: L r
@@ -150,10 +221,21 @@ Definition render_op (first : bool) (lo : oplay) (o : operand) : chars :=
   | OMem d b i sc =>
       match d, b, i with
       | DInt z, None, None => render_Z lo z                      (* absolute address: bare displacement *)
-      | DNone, _, _ => render_paren lo b i sc
-      | DInt z, _, _ => render_Z lo z ++ L (w_d lo) ++ render_paren lo b i sc
-      | DId n, _, _ => L n ++ L (w_d lo) ++ render_paren lo b i sc
+      | _, _, _ => render_mem lo d b i sc
       end
+  | OStar (StReg n) => render_star lo ++ "%" :: L n
+  | OStar (StDisp d) => render_star lo ++ render_sdisp lo d
+  | ORegK n k z => "%" :: L n ++ render_mask lo k z
+  | OMemK d b i sc k => render_mem lo d b i sc ++ render_mask lo k false
+  | OIdR n rel off =>
+      (if orb (lo_dollar lo) (negb first) then ["$"] else []) ++ render_sdisp lo (SId n (Some rel) off)
+  | ONumLbl d x => L d ++ [x]
+  | OSeg sg d b i sc =>
+      "%" :: L sg ++ L (w_sg1 lo) ++ ":" :: L (w_sg2 lo) ++ render_sdisp lo d
+      ++ (match b, i with
+          | None, None => []
+          | _, _ => (match d with SNone => [] | _ => L (w_d lo) end) ++ render_paren lo b i sc
+          end)
   end.
 
 Definition nth_lay (ls : list (oplay * string * string)) : oplay * string * string :=
@@ -174,9 +256,12 @@ Definition render_comment (c : option (bool * string)) : chars :=
   | Some (false, t) => "#" :: L t
   end.
 
+Definition render_prefixes (ps : list (bool * string)) : chars :=
+  flat_map (fun p : bool * string => L (if fst p then "data32" else "data16")%string ++ L (snd p)) ps.
+
 Definition render_chars (lay : layout) (a : instr) : chars :=
   let (m, ops) := a in
-  L (lead lay) ++ L m
+  L (lead lay) ++ render_prefixes (prefixes lay) ++ L m
   ++ (match ops with
       | [] => []
       | o :: ops' => let '(lo, wb, _) := nth_lay (lops lay) in
@@ -196,8 +281,6 @@ Definition render_directive_line (lead name rest : string) : string :=
 (* ------------------------------------------------------------------ parser *)
 (* Dispatch on the next character is written with boolean tests (not deep patterns) so that the
    proofs can reason about an abstract next character through its character class. *)
-Definition hd_eqb (x : ascii) (l : chars) : bool :=
-  match l with c :: _ => Ascii.eqb c x | [] => false end.
 
 (* end of the significant part of a line: nothing, or a comment ("#" | "//") whose text is made of
    printable ASCII and blanks (pyparsing: ZeroOrMore(Word(printables))). *)
@@ -300,16 +383,143 @@ Definition parse_paren (l : chars) : option (option string * option string * opt
 
 Inductive rop := RGood (o : operand) | RBare (n : string) | RBad.
 
+(* the optional opmask  { [%] name } [ { z } ]  after a register / after ")" : its content is dropped by the code.
+   Some rest | None: a "{" that does not open a well-formed mask (Unmodelled) *)
+Definition skip_mask (allow_z : bool) (r : chars) : option chars :=
+  let r1 := skip r in
+  if hd_eqb "{" r1 then
+    let r2 := skip (tl r1) in
+    let r3 := if hd_eqb "%" r2 then skip (tl r2) else r2 in
+    let (k, r4) := span is_alnum r3 in
+    match k with
+    | [] => None
+    | _ =>
+        let r5 := skip r4 in
+        if hd_eqb "}" r5 then
+          let r6 := tl r5 in
+          if allow_z then
+            let r7 := skip r6 in
+            if hd_eqb "{" r7 then
+              let r8 := skip (tl r7) in
+              if hd_eqb "z" r8 then
+                let r9 := skip (tl r8) in
+                if hd_eqb "}" r9 then Some (tl r9) else None
+              else None
+            else Some r6
+          else Some r6
+        else None
+    end
+  else Some r.
+
 (* d = None: a displacement literal that int(.,0) refuses;  bare: what the text before r is on its own *)
 Definition with_disp (d : option disp) (bare : option rop) (r : chars) : option (rop * chars) :=
   if hd_eqb "(" (skip r) then
     match parse_paren (skip r) with
     | Some (b, i, Some sc, r3) =>
-        match d with Some d' => Some (RGood (OMem d' b i sc), r3) | None => Some (RBad, r3) end
+        match skip_mask false r3 with
+        | Some r4 => match d with Some d' => Some (RGood (OMem d' b i sc), r4) | None => Some (RBad, r4) end
+        | None => None
+        end
     | Some (_, _, None, r3) => Some (RBad, r3)
     | None => None
     end
   else match bare with Some x => Some (x, r) | None => None end.
+
+(* ---- segment-override references  %seg : ext   (memory_segmentation / segment_extension)
+   The text of a number is kept as written: MatchFirst(hex_number | decimal_number) without conversion. *)
+Definition scan_dec (l : chars) : option (chars * chars) :=
+  let (d, r) := span is_digit l in match d with [] => None | _ => Some (d, r) end.
+Definition scan_unsigned (l : chars) : option (chars * chars) :=
+  if hex_prefix l then
+    let (h, r2) := span is_hex (tl (tl l)) in
+    match h with
+    | [] => scan_dec l
+    | _ => Some ("0" :: "x" :: h, r2)
+    end
+  else scan_dec l.
+Definition scan_number (l : chars) : option (chars * chars) :=
+  let neg := hd_eqb "-" l in
+  match scan_unsigned (if neg then tl l else l) with
+  | Some (t, r) => Some ((if neg then "-" :: t else t), r)
+  | None => None
+  end.
+
+(* identifier [@relocation [[+]decimal]] ; blanks allowed before "@", before the sign and after "+" *)
+Definition parse_sident (l : chars) : option (sdisp * chars) :=
+  match parse_ident l with
+  | None => None
+  | Some (n, r) =>
+      let r1 := skip r in
+      if hd_eqb "@" r1 then
+        let (a, r2) := span is_alpha (tl r1) in
+        match a with
+        | [] => None
+        | _ =>
+            let r3 := skip r2 in
+            let plus := hd_eqb "+" r3 in
+            let r4 := if plus then skip (tl r3) else r3 in
+            let neg := hd_eqb "-" r4 in
+            let (d, r5) := span is_digit (if neg then tl r4 else r4) in
+            match d with
+            | [] => if orb plus neg then None else Some (SId n (Some (S_ a)) None, r2)
+            | _ => Some (SId n (Some (S_ a)) (Some (S_ (if neg then "-" :: d else d))), r5)
+            end
+        end
+      else Some (SId n None None, r)
+  end.
+
+(* after the displacement: the optional ( base , index , scale ) *)
+Definition seg_tail (sg : string) (d : sdisp) (r : chars) : option (rop * chars) :=
+  let r1 := skip r in
+  if hd_eqb "(" r1 then
+    match parse_paren r1 with
+    | Some (b, i, Some sc, r3) => Some (RGood (OSeg sg d b i sc), r3)
+    | Some (_, _, None, r3) => Some (RBad, r3)
+    | None => None
+    end
+  else match d with SNone => None | _ => Some (RGood (OSeg sg d None None 1%Z), r) end.
+
+(* r = what follows "%seg :" , blanks skipped.  An empty extension (the grammar accepts it and leaves the
+   text to the next operand slot) is not modelled. *)
+Definition parse_seg (sg : string) (r : chars) : option (rop * chars) :=
+  match r with
+  | [] => None
+  | c :: _ =>
+      if Ascii.eqb c "(" then seg_tail sg SNone r
+      else if orb (Ascii.eqb c "-") (is_digit c) then
+        match scan_number r with Some (t, r2) => seg_tail sg (SNum (S_ t)) r2 | None => None end
+      else if is_idfirst c then
+        match parse_sident r with Some (d, r2) => seg_tail sg d r2 | None => None end
+      else None
+  end.
+
+Definition name_of_sid (d : sdisp) : string := match d with SId n _ _ => n | _ => ""%string end.
+
+(* after "*" and its blanks (memory_abs, or the "*" the grammar skips in front of disp(base,index,scale)) *)
+Definition parse_star (r : chars) : option (rop * chars) :=
+  match r with
+  | [] => None
+  | c :: _ =>
+      if Ascii.eqb c "%" then
+        match parse_reg r with
+        | Some (n, r2) => if hd_eqb ":" (skip r2) then None else Some (RGood (OStar (StReg n)), r2)
+        | None => None
+        end
+      else if Ascii.eqb c "(" then with_disp (Some DNone) None r
+      else if orb (Ascii.eqb c "-") (is_digit c) then
+        match scan_number r, parse_number r with
+        | Some (t, r2), Some (nr, _) =>
+            with_disp (match nr with NumOk z => Some (DInt z) | NumBad => None end)
+                      (Some (RGood (OStar (StDisp (SNum (S_ t)))))) r2
+        | _, _ => None
+        end
+      else if is_idfirst c then
+        match parse_sident r with
+        | Some (sd, r2) => with_disp (Some (DId (name_of_sid sd))) (Some (RGood (OStar (StDisp sd)))) r2
+        | None => None
+        end
+      else None
+  end.
 
 (* l non-empty, blanks skipped; None = Unmodelled *)
 Definition parse_operand (l : chars) : option (rop * chars) :=
@@ -317,15 +527,27 @@ Definition parse_operand (l : chars) : option (rop * chars) :=
   | [] => None
   | c :: r =>
       if Ascii.eqb c "%" then
-        match parse_reg l with Some (n, r) => Some (RGood (OReg n), r) | None => None end
+        match parse_reg l with
+        | Some (n, r) =>
+            if hd_eqb ":" (skip r) then parse_seg n (skip (tl (skip r)))
+            else match skip_mask true r with Some r' => Some (RGood (OReg n), r') | None => None end
+        | None => None
+        end
       else if Ascii.eqb c "$" then
         match parse_number r with
         | Some (NumOk z, r2) => Some (RGood (OImm z), r2)
         | Some (NumBad, r2) => Some (RBad, r2)
-        | None => match parse_ident r with Some (n, r2) => Some (RGood (OId n), r2) | None => None end
+        | None => match parse_sident r with Some (sd, r2) => Some (RGood (OId (name_of_sid sd)), r2) | None => None end
         end
       else if Ascii.eqb c "(" then with_disp (Some DNone) None l
+      else if Ascii.eqb c "*" then parse_star (skip r)
       else if orb (Ascii.eqb c "-") (is_digit c) then
+        (* numeric label  digits b|f  (numeric_identifier; the suffix is adjacent): the name is the digit string *)
+        let (dg, r1) := span is_digit l in
+        if andb (negb (match dg with [] => true | _ => false end))
+                (match r1 with x :: _ => one_of "bBfF" x | [] => false end)
+        then Some (RBare (S_ dg), tl r1)
+        else
         match parse_number l with
         | Some (NumOk z, r) =>
             with_disp (Some (DInt z))
@@ -335,8 +557,8 @@ Definition parse_operand (l : chars) : option (rop * chars) :=
         | None => None
         end
       else if is_idfirst c then
-        match parse_ident l with
-        | Some (n, r) => with_disp (Some (DId n)) (Some (RBare n)) r
+        match parse_sident l with
+        | Some (sd, r) => with_disp (Some (DId (name_of_sid sd))) (Some (RBare (name_of_sid sd))) r
         | None => None
         end
       else None
@@ -375,7 +597,15 @@ Definition mnem_ok (w : chars) : bool :=
   andb (match w with c :: _ => is_alpha c | [] => false end)
        (negb (orb (existsb (Ascii.eqb ",") w) (orb (starts (L "data16") w) (starts (L "data32") w)))).
 
+(* ZeroOrMore(Literal("data16") | Literal("data32")) in front of the mnemonic: skipped, not recorded *)
+Fixpoint strip_data (fuel : nat) (l : chars) : chars :=
+  match fuel with
+  | O => l
+  | S f => if orb (starts (L "data16") l) (starts (L "data32") l) then strip_data f (skip (skipn 6 l)) else l
+  end.
+
 Definition parse_instr (l : chars) : outcome :=
+  let l := strip_data (length l) l in
   let (w, r) := span is_mnem l in
   if negb (mnem_ok w) then Unmodelled
   else if negb (delim r) then Unmodelled
@@ -409,7 +639,7 @@ Definition parse_directive (r : chars) : outcome :=
   let (dn, r4) := span is_dirname (skip r) in
   match dn with
   | [] => Reject
-  | _ => if orb (existsb is_quote r4) (negb (end_ok r4)) then Unmodelled else Parsed (PDirective (S_ dn))
+  | _ => if negb (end_ok r4) then Unmodelled else Parsed (PDirective (S_ dn))
   end.
 
 Definition parse_chars (line : chars) : outcome :=
@@ -448,15 +678,35 @@ Local Open Scope string_scope.
 Definition show_N (n : N) : string := S_ (chars_of_dec (N.to_uint n)).
 Definition show_Z (z : Z) : string := (if (z <? 0)%Z then "-" else "") ++ show_N (Z.abs_N z).
 Definition show_opt (o : option string) : string := match o with Some s => s | None => "-" end.
+Definition show_sdisp (d : sdisp) : string :=
+  match d with
+  | SNone => "-"
+  | SNum t => "N(" ++ t ++ ")"
+  | SId n rel off => "L(" ++ n ++ ";" ++ show_opt rel ++ ";" ++ show_opt off ++ ")"
+  end.
+Definition show_disp (d : disp) : string :=
+  match d with
+  | DNone => "-" | DInt z => show_Z z | DId n => "L(" ++ n ++ ")"
+  | DIdR n rel off => "LR(" ++ n ++ ";" ++ rel ++ ";" ++ show_opt off ++ ")"
+  end.
 Definition show_op (o : operand) : string :=
   match o with
   | OReg n => "R(" ++ n ++ ")"
   | OImm z => "I(" ++ show_Z z ++ ")"
   | OId n => "L(" ++ n ++ ")"
   | OMem d b i sc =>
-      "M(" ++ (match d with DNone => "-" | DInt z => show_Z z | DId n => "L(" ++ n ++ ")" end)
-           ++ ";" ++ show_opt b ++ ";" ++ show_opt i ++ ";" ++ show_Z sc ++ ")"
+      "M(" ++ show_disp d ++ ";" ++ show_opt b ++ ";" ++ show_opt i ++ ";" ++ show_Z sc ++ ")"
+  | OMemK d b i sc k =>
+      "MK(" ++ show_disp d ++ ";" ++ show_opt b ++ ";" ++ show_opt i ++ ";" ++ show_Z sc ++ ";" ++ k ++ ")"
+  | ORegK n k z => "RK(" ++ n ++ ";" ++ k ++ ";" ++ (if z then "z" else "-") ++ ")"
+  | OIdR n rel off => "LR(" ++ n ++ ";" ++ rel ++ ";" ++ show_opt off ++ ")"
+  | ONumLbl d x => "NL(" ++ d ++ ";" ++ String x "" ++ ")"
+  | OStar (StReg n) => "*R(" ++ n ++ ")"
+  | OStar (StDisp d) => "*" ++ show_sdisp d
+  | OSeg sg d b i sc =>
+      "S(" ++ sg ++ ";" ++ show_sdisp d ++ ";" ++ show_opt b ++ ";" ++ show_opt i ++ ";" ++ show_Z sc ++ ")"
   end.
+Definition show_code_view (a : instr) : string := "I:" ++ fst a ++ ":" ++ String.concat "," (map (fun o => show_op (code_view o)) (snd a)).
 Definition show_instr (a : instr) : string := "I:" ++ fst a ++ ":" ++ String.concat "," (map show_op (snd a)).
 Definition show_outcome (o : outcome) : string :=
   match o with
